@@ -28,6 +28,7 @@ RULE = (
     "numpy.f, method, numpy.add.reduce / accumulate (axis spelled out, and axis omitted = axis 0) must return model-equal results. "
     "non-trivial = >= 2 elements with different monomials are combined (reduced axis length >= 2 / inner dimension >= 2)."
 )
+LEVEL_TEXT += (" Also drawn: initial= for sum/prod, numpy-integer axes, the axis-omitted ufunc.reduce/accumulate spelling (axis 0), big-integer determinants (entries to 2**30) and integer arrays with fractional diff/ediff1d boundaries.")
 ASSUMPTIONS = [
     "ediff1d's to_begin/to_end have a kind numpy can cast to the array's (same kind, or int into float); diff's prepend/append may have any kind (numpy promotes)",
     "ufunc.reduce/accumulate with the axis omitted reduce along axis 0 (numpy's definition), unlike sum/cumsum whose default is axis=None: the axis-omitted ufunc spelling is compared with the axis=0 result",
